@@ -107,7 +107,7 @@ CHECKS = {
         "level": "exploration",
         "technique": "bounded-exhaustive enumeration + property-based testing: every pair of canonical strided intervals of width 1-3 (and a third / all at width 4) per transfer function, generated wide intervals with sampled members; containment of concrete results in the member set of the abstract result",
         "text": "For every binary operation, comparison, unary operation, extension and extraction of StridedInterval, all operand pairs over all canonical intervals of width 1-3 are enumerated (width 4: a seed-selected third in the quick tier, all in the thorough tier) and every concrete result op(x,y) over the operands' members must lie in the member set of the abstract result, computed from (bits, stride, lb, ub) alone; comparisons must contain every truth value that occurs. Generated intervals at 8-64 bits are checked on sampled members. Exhaustive on the enumerated sub-domain, exploration beyond it.",
-        "note": "Signed division is an open finding (floor rounding pinned by the repository's tests): its 34 300 failing operand pairs of width 1-4 are listed literally with the wrong result observed, any other failure is a violation, and the operation is excluded (counted) at wide widths.",
+        "note": "Signed division is an open finding (floor rounding pinned by the repository's tests): its failing operand pairs of width 1-4 are listed literally with the wrong result observed, any other failure is a violation, and the operation is excluded (counted) at wide widths.",
     },
     "C22": {
         "level": "exploration",
